@@ -1656,6 +1656,9 @@ def packSpecialData(
 
     if any(isinstance(d, (tuple, list, np.ndarray)) for d in data):
         data = replaceNonesWithNonsense(data, paramName, nones)
+        # the Nones may be inside the entries rather than at the top level; the reader only
+        # restores them when it is told that the nonsense values are in use
+        attrs["nones"] = True
         return data, attrs
 
     if len(nones) == 0:
